@@ -171,7 +171,14 @@ impl Exp {
                     },
                     BinOp::Mul => match (lhs, rhs) {
                         (Exp::Number(lhs), Exp::Number(rhs)) => Exp::Number(lhs * rhs),
-                        (Exp::Number(0.0), _) | (_, Exp::Number(0.0)) => Exp::Number(0.0),
+                        // a zero factor only absorbs an operand whose divisions are all
+                        // by non-zero constants: a zero or variable denominator must stay
+                        // visible so that it is still diagnosed
+                        (Exp::Number(0.0), other) | (other, Exp::Number(0.0))
+                            if !other.has_unresolved_division() =>
+                        {
+                            Exp::Number(0.0)
+                        }
                         (Exp::Number(1.0), rhs) => rhs,
                         (lhs, Exp::Number(1.0)) => lhs,
                         (lhs, rhs) => Exp::BinOp(BinOp::Mul, lhs.to_box(), rhs.to_box()),
@@ -308,6 +315,28 @@ impl Exp {
                 }
             }
             exp => exp.clone(),
+        }
+    }
+
+    /// True if the expression contains a division whose denominator is not a
+    /// non-zero numeric constant (a zero divisor or a non-constant divisor).
+    fn has_unresolved_division(&self) -> bool {
+        match self {
+            Exp::Number(_) | Exp::Variable(_) => false,
+            Exp::Abs(inner) | Exp::Not(inner) | Exp::UnOp(_, inner) => {
+                inner.has_unresolved_division()
+            }
+            Exp::Min(exps) | Exp::Max(exps) | Exp::And(exps) | Exp::Or(exps) => {
+                exps.iter().any(|exp| exp.has_unresolved_division())
+            }
+            Exp::Xor(lhs, rhs) | Exp::Implies(lhs, rhs) | Exp::Iff(lhs, rhs) => {
+                lhs.has_unresolved_division() || rhs.has_unresolved_division()
+            }
+            Exp::BinOp(op, lhs, rhs) => {
+                let unresolved = matches!(op, BinOp::Div)
+                    && !matches!(**rhs, Exp::Number(divisor) if divisor != 0.0);
+                unresolved || lhs.has_unresolved_division() || rhs.has_unresolved_division()
+            }
         }
     }
 
@@ -688,6 +717,16 @@ impl Constraint {
     ///
     /// # Returns
     /// A tuple of (lhs, comparison, rhs)
+    /// The same constraint with both sides flattened and simplified, so that
+    /// constant sub-expressions (`-2`, `0 - 2`, `1 + 1`) are plain numbers.
+    pub(crate) fn normalized(self) -> Self {
+        Self {
+            lhs: self.lhs.flatten().simplify(),
+            rhs: self.rhs.flatten().simplify(),
+            ..self
+        }
+    }
+
     pub fn into_parts(self) -> (Exp, Comparison, Exp, String) {
         (self.lhs, self.constraint_type, self.rhs, self.name)
     }
